@@ -136,9 +136,18 @@ func c13hFrames(stack string) (string, []string) {
 	return site, out
 }
 
+// c13hAborted: the last c13hTry recovered http.ErrAbortHandler — mux.serveHTTP's deliberate abort of ONE
+// response whose body could not be copied completely (net/http recovers it and closes the connection).
+var c13hAborted bool
+
 func c13hTry(phase string, req int, f func()) (c *c13hCrash) {
+	c13hAborted = false
 	defer func() {
 		if p := recover(); p != nil {
+			if p == http.ErrAbortHandler {
+				c13hAborted = true
+				return
+			}
 			msg := fmt.Sprint(p)
 			if len(msg) > 160 {
 				msg = msg[:160]
@@ -153,9 +162,17 @@ func c13hTry(phase string, req int, f func()) (c *c13hCrash) {
 
 type c13hHandler struct{}
 
+// c13hFailReader: a response payload whose source fails (only when the request asks for it).
+type c13hFailReader struct{}
+
+func (c13hFailReader) Read([]byte) (int, error) { return 0, fmt.Errorf("verif: payload source failed") }
+
 func (h *c13hHandler) Handle(ctx *context.Context) string {
 	resp, _ := httpprot.NewResponse(nil)
 	resp.SetStatusCode(299)
+	if req, ok := ctx.GetInputRequest().(*httpprot.Request); ok && req.HTTPHeader().Get("X-Fail-Body") != "" {
+		resp.SetPayload(c13hFailReader{})
+	}
 	ctx.SetResponse(context.DefaultNamespace, resp)
 	return ""
 }
@@ -257,6 +274,18 @@ func c13hExec(raw json.RawMessage) interface{} {
 			if c := c13hTry(phase, i, func() { m.ServeHTTP(w, stdr) }); c != nil {
 				obs.Crash = c
 				return false
+			}
+			if c13hAborted {
+				// aborted response: legitimate only when the payload source really failed
+				if stdr.Header.Get("X-Fail-Body") == "" {
+					obs.Crash = &c13hCrash{Phase: phase, Site: "object/httpserver.(*muxInstance).serveHTTP", Req: i,
+						Msg: "http.ErrAbortHandler although the payload reader did not fail", Frames: []string{}}
+					return false
+				}
+				if phase == "Handle" {
+					obs.Status = append(obs.Status, -1)
+				}
+				continue
 			}
 			if phase == "Handle" {
 				obs.Status = append(obs.Status, w.Code)
@@ -485,6 +514,9 @@ func c13hGen(r0 *verifh.Rand, i int) interface{} {
 		for q, qn := 0, g.r.Intn(3); q < qn; q++ {
 			rq.Headers = append(rq.Headers, [2]string{g.pick("X-A", "X-B", "X-Forwarded-For", "X-Real-Ip"),
 				g.pick("", "1", "2", "a", "1.2.3.4", "1.2.3.4, ::1", "x")})
+		}
+		if g.maybe(8) {
+			rq.Headers = append(rq.Headers, [2]string{"X-Fail-Body", "1"})
 		}
 		reqs = append(reqs, rq)
 	}
